@@ -122,6 +122,8 @@ pub fn run_check(prop: &PropDef, tier: Tier) -> i32 {
         if cfg.wall_cap > default_cap {
             cfg.wall_cap = default_cap;
         }
+        let mut cfg = cfg;
+        cfg.known_keys = known.known.iter().filter(|(id, _, _)| id == prop.id).map(|(_, k, _)| k.clone()).collect();
         let st = explore::explore(&cfg, &part.run);
         eprintln!(
             "[{}] part {}: {} executions, {} evaluations, {} states, {} transitions, {} distinct digests, {} outcomes, {:.1}s{}",
@@ -136,7 +138,7 @@ pub fn run_check(prop: &PropDef, tier: Tier) -> i32 {
             st.wall_s,
             if st.cap_hit { " CAP HIT" } else { "" }
         );
-        for (v, points, trace) in st.violations.iter().take(5) {
+        for (v, points, trace) in st.violations.iter().take(40) {
             let is_known = known
                 .known
                 .iter()
